@@ -258,8 +258,8 @@ whose value the observation drops (optional / skip-value lists). -/
 def ReachHttp (isReq : Bool) (s : HttpSig) : Prop :=
   (s.horder.map (·.name)).Nodup ∧ (s.habsent.map (·.name)).Nodup ∧
   (∀ h ∈ s.horder, h.value.isSome →
-    h.name ∉ (if isReq then Gen.BundledSig.requestOptionalHeaders else Gen.BundledSig.responseOptionalHeaders) ∧
-    h.name ∉ (if isReq then Gen.BundledSig.requestSkipValueHeaders else Gen.BundledSig.responseSkipValueHeaders)) ∧
+    Huginn.Reach.inListCI (if isReq then Gen.BundledSig.requestOptionalHeaders else Gen.BundledSig.responseOptionalHeaders) h.name = false ∧
+    Huginn.Reach.inListCI (if isReq then Gen.BundledSig.requestSkipValueHeaders else Gen.BundledSig.responseSkipValueHeaders) h.name = false) ∧
   -- a header the request parser takes out of the list (`Cookie`, `Referer`) is optional
   (∀ h ∈ s.horder, Huginn.Reach.keptHeader isReq (h.name, none) = false → h.optional = true)
 instance (r s) : Decidable (ReachHttp r s) := by unfold ReachHttp; exact inferInstance
